@@ -1,7 +1,6 @@
 package main
 
 import (
-	"sort"
 	"fmt"
 	"go/ast"
 	"go/token"
@@ -300,13 +299,7 @@ func (w *World) lowerFunc(pkg *Pkg, key string, fd *ast.FuncDecl, fc *FuncContra
 	e.emit(Cmd{Kind: CAssert, T: False, Ob: &Obligation{Name: e.short + "#cover.entry", Func: e.short, Kind: "cover", Cover: true, Descr: "preconditions are satisfiable"}})
 
 	if fc != nil && !fc.Assumed {
-		e.frameAuto = func(mem bool, maps []string) *Term {
-			var ents []Value
-			for _, a := range actuals {
-				ents = append(ents, e.toEntry(a))
-			}
-			return e.frameTerm(fc, key, sig, ents, mem, maps)
-		}
+		e.frameInit(fc, key, sig, actuals)
 		e.ownAuto = func() []*Term {
 			var ents []Value
 			for _, a := range actuals {
@@ -388,8 +381,8 @@ func (w *World) lowerFunc(pkg *Pkg, key string, fd *ast.FuncDecl, fc *FuncContra
 			}
 		}
 		// memory frame
-		if e.frameAuto != nil {
-			e.assertFrame(e.frameAuto(e.assigned["Mem"], heapMapsOf(e.assigned)), "exit", "only what the modifies clause allows (or freshly allocated memory) is written", fmt.Sprintf("%s:%d", fc.File, fc.Line))
+		if e.frOn {
+			e.assertFrame("exit", "only what the modifies clause allows (or freshly allocated memory) is written", fmt.Sprintf("%s:%d", fc.File, fc.Line))
 		}
 		// global writes
 		if fc != nil {
@@ -494,11 +487,16 @@ func (e *Env) exitCtx() *specCtx {
 	return &specCtx{e: e, names: names, bound: map[string]*Term{}, oldMap: e.entryOld}
 }
 
-// frameTerm states that, relative to the function's entry, only what the modifies clause allows has been
-// written: byte arrays owned by the modifies roots (or freshly allocated), and fields of the by-value leaves
-// of the roots (and of the function's own by-value parameters), the listed ptr()/field() leaves, and objects
-// allocated during the call. This is exactly what callers assume when they havoc only the roots.
-func (e *Env) frameTerm(fc *FuncContract, key string, sig *types.Signature, ents []Value, mem bool, maps []string) *Term {
+// Frame checking. Callers assume that a callee writes only what its modifies clause allows: the fields of the
+// by-value leaves of its roots, the listed ptr()/field() leaves, byte arrays owned by the roots, and memory it
+// allocates. The callee is held to that at every write: each heap store, each byte-array write and each call
+// (which writes what the callee's own modifies clause allows) conjoins "the target is allowed" onto the ghost
+// boolean $fok; $fok is asserted at every exit path and is an automatic invariant of every loop.
+func (e *Env) frameInit(fc *FuncContract, key string, sig *types.Signature, actuals []Value) {
+	var ents []Value
+	for _, a := range actuals {
+		ents = append(ents, e.toEntry(a))
+	}
 	names := map[string]Value{}
 	for i, n := range fc.Params {
 		if i < len(ents) && n != "_" {
@@ -509,31 +507,12 @@ func (e *Env) frameTerm(fc *FuncContract, key string, sig *types.Signature, ents
 	saved := e.errors
 	ms := e.modSpecOf(fc, key, sig, ents, pctx)
 	e.errors = saved
-	var conj []*Term
-	oldNext := e.nextObj().Subst(e.entryOld)
-	inv := func(t *Term) *Term { return App("subinv", SInt, t) }
-	live := func(t *Term) *Term { return And(Gt(t, IntLit(0)), Lt(t, oldNext)) }
-	preObj := func(o *Term) *Term {
-		return Or(live(o), And(Lt(o, IntLit(0)), Or(live(inv(o)), And(Lt(inv(o), IntLit(0)), Or(live(inv(inv(o))), And(Lt(inv(inv(o)), IntLit(0)), live(inv(inv(inv(o))))))))))
-	}
-	if mem {
-		r := Bound("r$", SInt)
-		// pre-existing arrays: allocated or constant ones, and the inline arrays of pre-existing objects
-		conds := []*Term{Lt(r, e.nextRef().Subst(e.entryOld)), Or(Gt(r, IntLit(-1000)), preObj(App("arrinv", SInt, r)))}
-		for _, rf := range ms.refs {
-			conds = append(conds, Ne(r, rf.Subst(e.entryOld)))
-		}
-		oldMem := e.mem().Subst(e.entryOld)
-		conj = append(conj, Forall([]*Term{r}, Implies(And(conds...), Eq(Select(e.mem(), r), Select(oldMem, r)))))
-	}
-	exempt := map[string][]*Term{}
-	addLeaf := func(id *Term, lf leaf) {
-		if _, isArr := lf.Typ.Underlying().(*types.Array); isArr {
-			return
-		}
-		for _, c := range leafComps(lf.K, lf.ElemU) {
-			n := heapMap(lf.Owner, lf.Field) + c.Suf
-			exempt[n] = append(exempt[n], id.Subst(e.entryOld))
+	seen := map[string]bool{}
+	addObj := func(id *Term) {
+		id = id.Subst(e.entryOld)
+		if !seen[id.String()] {
+			seen[id.String()] = true
+			e.frObjs = append(e.frObjs, id)
 		}
 	}
 	addRoot := func(r Value) {
@@ -541,7 +520,8 @@ func (e *Env) frameTerm(fc *FuncContract, key string, sig *types.Signature, ents
 		if r.K == VPtr {
 			t = derefType(t)
 		}
-		walkLeaves(t, nil, func(steps []subStep, lf leaf) { addLeaf(subID(r.T, steps), lf) })
+		addObj(r.T)
+		walkLeaves(t, nil, func(steps []subStep, lf leaf) { addObj(subID(r.T, steps)) })
 	}
 	for _, r := range ms.roots {
 		addRoot(r)
@@ -551,66 +531,73 @@ func (e *Env) frameTerm(fc *FuncContract, key string, sig *types.Signature, ents
 			addRoot(a)
 		}
 	}
+	e.frLeaves = map[string][]*Term{}
 	for _, pl := range ms.ptrs {
-		addLeaf(pl.id, pl.lf)
+		n := heapMap(pl.lf.Owner, pl.lf.Field)
+		e.frLeaves[n] = append(e.frLeaves[n], pl.id.Subst(e.entryOld))
 	}
-	o := Bound("o$", SInt)
-	pre := preObj(o)
-	for _, n := range maps {
-		s, ok := e.proc.Sorts[n]
-		if !ok {
-			continue
-		}
-		cur := Var(n, s)
-		old := cur.Subst(e.entryOld)
-		conds := []*Term{pre}
-		for _, x := range exempt[n] {
-			conds = append(conds, Ne(o, x))
-		}
-		conj = append(conj, Forall([]*Term{o}, Implies(And(conds...), Eq(Select(cur, o), Select(old, o)))))
+	for _, rf := range ms.refs {
+		e.frRefs = append(e.frRefs, rf.Subst(e.entryOld))
 	}
-	if len(conj) == 0 {
-		return nil
-	}
-	return And(conj...)
+	e.frOn = true
+	e.declare("$fok", SBool)
+	e.assign("$fok", SBool, True)
 }
 
-func (e *Env) frameFlag() *Term {
-	e.declare("$frameq", SBool)
-	return Var("$frameq", SBool)
+func (e *Env) preObj(o *Term) *Term {
+	oldNext := e.nextObj().Subst(e.entryOld)
+	inv := func(t *Term) *Term { return App("subinv", SInt, t) }
+	live := func(t *Term) *Term { return And(Gt(t, IntLit(0)), Lt(t, oldNext)) }
+	return Or(live(o), And(Lt(o, IntLit(0)), Or(live(inv(o)), And(Lt(inv(o), IntLit(0)), Or(live(inv(inv(o))), And(Lt(inv(inv(o)), IntLit(0)), live(inv(inv(inv(o))))))))))
 }
 
-// assertFrame emits a frame obligation; the frame invariants of loops are guarded by $frameq, which is
-// true only in the queries of frame obligations (so they cost the other queries nothing).
-func (e *Env) assertFrame(t *Term, detail string, descr, pos string) {
-	if t == nil {
+func (e *Env) frameNote(allowed *Term) {
+	if !e.frOn {
 		return
 	}
+	e.assign("$fok", SBool, And(Var("$fok", SBool), allowed))
+}
+
+// noteObjWrite: leaf lf of object id is written (lf nil: any leaf of the object and of its by-value sub-objects).
+func (e *Env) noteObjWrite(id *Term, lf *leaf) {
+	if !e.frOn {
+		return
+	}
+	var alts []*Term
+	for _, x := range e.frObjs {
+		alts = append(alts, Eq(id, x))
+	}
+	if lf != nil {
+		for _, x := range e.frLeaves[heapMap(lf.Owner, lf.Field)] {
+			alts = append(alts, Eq(id, x))
+		}
+	}
+	alts = append(alts, Not(e.preObj(id)))
+	e.frameNote(Or(alts...))
+}
+
+// noteMemWrite: the byte array ref is written.
+func (e *Env) noteMemWrite(ref *Term) {
+	if !e.frOn {
+		return
+	}
+	var alts []*Term
+	for _, x := range e.frRefs {
+		alts = append(alts, Eq(ref, x))
+	}
+	alts = append(alts, Eq(ref, IntLit(0))) // nothing lives at the nil ref: a callee given a nil slice writes nothing
+	alts = append(alts, Ge(ref, e.nextRef().Subst(e.entryOld)))
+	alts = append(alts, And(Lt(ref, IntLit(-1000)), Not(e.preObj(App("arrinv", SInt, ref)))))
+	e.frameNote(Or(alts...))
+}
+
+func (e *Env) assertFrame(detail string, descr, pos string) {
 	name := e.short + "#frame." + detail + e.pathTag
-	ob := &Obligation{Name: name, Tags: []string{homeProp(e.key)}, Func: e.short, Kind: "frame", Descr: descr, Pos: pos, Frame: true}
+	ob := &Obligation{Name: name, Tags: []string{homeProp(e.key)}, Func: e.short, Kind: "frame", Descr: descr, Pos: pos}
 	if p := pkgOfKey(e.key); strings.HasSuffix(p, "/internal/buffer") || strings.HasSuffix(p, "/builder") {
 		ob.Tags = append(ob.Tags, "C13")
 	}
-	g := Implies(e.frameFlag(), t)
-	if t.Op == "and" && len(t.Args) > 1 {
-		var cs []*Term
-		for _, c := range t.Args {
-			cs = append(cs, Implies(e.frameFlag(), c))
-		}
-		g = And(cs...)
-	}
-	e.emit(Cmd{Kind: CAssert, T: g, Ob: ob})
-}
-
-func heapMapsOf(assigned map[string]bool) []string {
-	var hn []string
-	for n := range assigned {
-		if strings.HasPrefix(n, "H$") {
-			hn = append(hn, n)
-		}
-	}
-	sort.Strings(hn)
-	return hn
+	e.emit(Cmd{Kind: CAssert, T: Var("$fok", SBool), Ob: ob})
 }
 
 var depWords = []string{"dep(", "WF(", "WFP(", "LS(", "frag(", "depConst(", "inv("}
